@@ -52,6 +52,13 @@ type Case struct {
 	Buf      int         `json:"buf"`
 	Batch    int         `json:"batch"`
 	Timeout  bool        `json:"timeout"` // proxy response (frame) timeout of 1s, else none
+	// Via: "" = ProxyStore.Series is called directly and the response frames are judged; "querier" = the request goes
+	// through the real pkg/query querier (NewQueryableCreator(..)(..).Querier(..).Select(..)) over the real ProxyStore
+	// and the storage.SeriesSet that Select returns (series, Err(), Warnings()) is judged.
+	Via string `json:"via,omitempty"`
+	// Dedup: replica-label deduplication (replica label "r") is on: the querier's deduplicate flag, and the request
+	// carries without_replica_labels=["r"].
+	Dedup bool `json:"dedup,omitempty"`
 }
 
 // shape builds store i's stream for a shape id. Label sets overlap between neighbouring stores so that the
@@ -117,33 +124,74 @@ func storeOptions(i int, shapes []int, ekinds, hkinds []string) []StoreSpec {
 // context error only; kinds=true: every failing store independently ranges over the whole error-kind alphabet
 // (errKinds for open and recv faults, hangKinds for hang faults); the assignments in which every failing store
 // has the plain kind are skipped there, they are part of the kinds=false block with the same k.
+// via="querier": the block runs through the real querier (see Case.Via) with the querier configurations.
 type block struct {
 	k      int
 	shapes []int
 	kinds  bool
+	via    string
+}
+
+// variant is how replica labels are involved in a querier run: repl = store i's series carry the replica label
+// r=i+1 (else no series has a replica label), dedup = deduplication by that label is on, nowrl = the stores do not
+// support without_replica_labels (the proxy then removes the label and re-sorts, always eagerly).
+type variant struct{ repl, dedup, nowrl bool }
+
+var variants = []variant{{false, false, false}, {true, false, false}, {true, true, false}, {true, true, true}}
+
+func (v variant) apply(stores []StoreSpec) []StoreSpec {
+	out := make([]StoreSpec, len(stores))
+	for i, sp := range stores {
+		if v.repl {
+			sp.E = append([]Entry(nil), sp.E...)
+			for j := range sp.E {
+				sp.E[j].R = i + 1
+			}
+		}
+		sp.NoWRL = v.nowrl
+		out[i] = sp
+	}
+	return out
 }
 
 func gen(r *vlib.R) iter.Seq[Case] {
-	blocks := []block{{1, []int{0, 1, 2, 3}, false}, {2, []int{0, 1, 2, 3}, false}, {3, []int{1, 2}, false},
-		{1, []int{0, 1, 2, 3}, true}, {2, []int{0, 2}, true}}
+	// the querier family comes first: it is small, and a deadline then cuts the tail of the big proxy family
+	blocks := []block{{1, []int{0, 1, 2, 3}, false, "querier"}, {2, []int{0, 2}, false, "querier"}, {3, []int{0, 1}, false, "querier"},
+		{1, []int{0, 1, 2, 3}, false, ""}, {2, []int{0, 1, 2, 3}, false, ""}, {3, []int{1, 2}, false, ""},
+		{1, []int{0, 1, 2, 3}, true, ""}, {2, []int{0, 2}, true, ""}}
 	bufs, batches := []int{1, 2}, []int{0, 2}
 	if r.Thorough() {
-		blocks = []block{{1, []int{0, 1, 2, 3, 4}, false}, {2, []int{0, 1, 2, 3, 4}, false}, {3, []int{0, 1, 2, 3, 4}, false}, {4, []int{1, 2}, false},
-			{1, []int{0, 1, 2, 3, 4}, true}, {2, []int{0, 1, 2, 3, 4}, true}}
+		blocks = []block{{1, []int{0, 1, 2, 3, 4}, false, "querier"}, {2, []int{0, 1, 2, 3, 4}, false, "querier"}, {3, []int{0, 1, 2}, false, "querier"},
+			{1, []int{0, 1, 2, 3, 4}, true, "querier"},
+			{1, []int{0, 1, 2, 3, 4}, false, ""}, {2, []int{0, 1, 2, 3, 4}, false, ""}, {3, []int{0, 1, 2, 3, 4}, false, ""}, {4, []int{1, 2}, false, ""},
+			{1, []int{0, 1, 2, 3, 4}, true, ""}, {2, []int{0, 1, 2, 3, 4}, true, ""}}
 		bufs, batches = []int{1, 2, 3}, []int{0, 2, 3}
 	}
 	type cfg struct {
 		abort, disabled, lazy bool
 		buf, batch            int
+		v                     *variant
 	}
-	var cfgs []cfg
+	var cfgs, qcfgs []cfg
 	// WARN; ABORT; the deprecated PartialResponseDisabled bit alone (strategy field left at its zero value,
 	// which is what a client predating partial_response_strategy sends).
 	for _, st := range [][2]bool{{false, false}, {true, false}, {false, true}} {
 		for _, b := range batches {
-			cfgs = append(cfgs, cfg{st[0], st[1], false, 0, b})
+			cfgs = append(cfgs, cfg{st[0], st[1], false, 0, b, nil})
 			for _, buf := range bufs {
-				cfgs = append(cfgs, cfg{st[0], st[1], true, buf, b})
+				cfgs = append(cfgs, cfg{st[0], st[1], true, buf, b, nil})
+			}
+		}
+	}
+	// querier: partial response on (WARN) / off (ABORT) - the querier cannot send the legacy bit - x replica-label
+	// variant x {eager, lazy buffer 1 (thorough ..2)} x series response batch size
+	for _, abort := range []bool{false, true} {
+		for vi := range variants {
+			for _, b := range batches[:2] {
+				qcfgs = append(qcfgs, cfg{abort, false, false, 0, b, &variants[vi]})
+				for _, buf := range bufs[:len(bufs)-1] {
+					qcfgs = append(qcfgs, cfg{abort, false, true, buf, b, &variants[vi]})
+				}
 			}
 		}
 	}
@@ -162,6 +210,10 @@ func gen(r *vlib.R) iter.Seq[Case] {
 				for i := range opts {
 					opts[i] = storeOptions(i, b.shapes, ekinds, hkinds)
 					radix[i] = len(opts[i])
+				}
+				bcfgs := cfgs
+				if b.via != "" {
+					bcfgs = qcfgs
 				}
 				n := int64(0)
 				for idx := range vlib.Odometer(radix...) {
@@ -183,23 +235,41 @@ func gen(r *vlib.R) iter.Seq[Case] {
 						continue // enumerated by the plain block
 					}
 					n++
-					for _, c := range cfgs {
-						if !yield(Case{Stores: stores, Abort: c.abort, Disabled: c.disabled, Lazy: c.lazy, Buf: c.buf, Batch: c.batch, Timeout: timeout}) {
+					var byVariant [][]StoreSpec
+					if b.via != "" {
+						for _, v := range variants {
+							byVariant = append(byVariant, v.apply(stores))
+						}
+					}
+					for _, c := range bcfgs {
+						cs := Case{Stores: stores, Abort: c.abort, Disabled: c.disabled, Lazy: c.lazy, Buf: c.buf, Batch: c.batch, Timeout: timeout, Via: b.via}
+						if c.v != nil {
+							for vi := range variants {
+								if c.v == &variants[vi] {
+									cs.Stores = byVariant[vi]
+								}
+							}
+							cs.Dedup = c.v.dedup
+						}
+						if !yield(cs) {
 							return
 						}
 					}
 				}
 				key := fmt.Sprintf("block_stores=%d_timeout=%v", b.k, timeout)
+				if b.via != "" {
+					key = b.via + "_" + key
+				}
 				if b.kinds {
 					key += "_errkinds"
 				}
-				r.Set(key, fmt.Sprintf("%d fault assignments (shapes %v) x %d configurations", n, b.shapes, len(cfgs)))
+				r.Set(key, fmt.Sprintf("%d fault assignments (shapes %v) x %d configurations", n, b.shapes, len(bcfgs)))
 			}
 		}
 	}
 }
 
-func runProxy(c Case) (*collectServer, error) {
+func buildProxy(c Case) *store.ProxyStore {
 	clients := make([]store.Client, len(c.Stores))
 	for i, sp := range c.Stores {
 		clients[i] = &fakeStore{name: fmt.Sprintf("store-%d", i), spec: sp}
@@ -212,8 +282,30 @@ func runProxy(c Case) (*collectServer, error) {
 	if c.Timeout {
 		timeout = time.Second
 	}
-	p := store.NewProxyStore(nil, nil, func() []store.Client { return clients }, component.Query, labels.EmptyLabels(),
+	return store.NewProxyStore(nil, nil, func() []store.Client { return clients }, component.Query, labels.EmptyLabels(),
 		timeout, strategy, store.WithLazyRetrievalMaxBufferedResponsesForProxy(c.Buf))
+}
+
+// obs is what the caller of the request observed besides the error: the warnings, and per returned label set
+// the identities of the data returned with it (proxy: chunks; querier: samples; nil data = not looked at).
+type obs struct {
+	warnings []string
+	nseries  int
+	got      map[string]map[string]bool
+	data     bool
+}
+
+func (o *obs) add(lset string, ids ...string) {
+	if o.got[lset] == nil {
+		o.got[lset] = map[string]bool{}
+	}
+	for _, id := range ids {
+		o.got[lset][id] = true
+	}
+}
+
+func runProxy(c Case) (*obs, error) {
+	p := buildProxy(c)
 	req := &storepb.SeriesRequest{
 		MinTime:                 -1 << 63,
 		MaxTime:                 1<<63 - 1,
@@ -225,9 +317,20 @@ func runProxy(c Case) (*collectServer, error) {
 	if c.Abort {
 		req.PartialResponseStrategy = storepb.PartialResponseStrategy_ABORT
 	}
+	if c.Dedup {
+		req.WithoutReplicaLabels = []string{ReplicaLabel}
+	}
 	srv := &collectServer{ctx: context.Background()}
 	err := p.Series(req, srv)
-	return srv, err
+	o := &obs{warnings: srv.warnings, nseries: len(srv.series), got: map[string]map[string]bool{}, data: true}
+	for _, s := range srv.series {
+		k := labelpb.ZLabelsToPromLabels(s.Labels).String()
+		o.add(k)
+		for _, ch := range s.Chunks {
+			o.add(k, chunkIdentity(ch))
+		}
+	}
+	return o, err
 }
 
 // faultName names a store's fault in violation signatures: open | recv | timeout, followed (showKind) by the
@@ -245,8 +348,22 @@ func faultName(sp StoreSpec, showKind bool) string {
 
 type verdict struct{ sig, desc string }
 
+// result of one run: what was observed, the error of the request (proxy: what Series returned; querier: Err() of
+// the series set after it was drained), and crash != "" when the run panicked or never returned.
+type result struct {
+	o     *obs
+	err   error
+	crash string
+}
+
 // judge is the oracle: the statement of C06 applied to one finished run.
-func judge(c Case, srv *collectServer, err error, crash string, showKind bool) (out []verdict) {
+func judge(c Case, res result, showKind bool) (out []verdict) {
+	srv, err, crash := res.o, res.err, res.crash
+	// pre: which observation point the class belongs to; call: what was called
+	pre, call, unit := "", "Series", "chunk"
+	if c.Via == "querier" {
+		pre, call, unit = "querier-", "Select", "sample"
+	}
 	var failed, healthy []int
 	kinds := map[string]bool{}
 	for i, sp := range c.Stores {
@@ -267,6 +384,10 @@ func judge(c Case, srv *collectServer, err error, crash string, showKind bool) (
 	if c.Lazy {
 		retr = "lazy"
 	}
+	where := ""
+	if c.Via == "querier" {
+		where = fmt.Sprintf("through the querier (dedup=%v): ", c.Dedup)
+	}
 	describe := func(i int) string {
 		sp := c.Stores[i]
 		if sp.Fault == "open" {
@@ -279,14 +400,15 @@ func judge(c Case, srv *collectServer, err error, crash string, showKind bool) (
 		all = append(all, describe(i))
 	}
 	allFailed := strings.Join(all, ", ")
+	allFailed = where + allFailed
 	if crash != "" {
-		// a panic of Series on the calling goroutine, or a bubble in which every goroutine is blocked for good
-		// with no timer left (Series never returns): neither "fails" nor "succeeds" as the statement requires
+		// a panic of the call on the calling goroutine, or a bubble in which every goroutine is blocked for good
+		// with no timer left (the call never returns): neither "fails" nor "succeeds" as the statement requires
 		sig := "series-call-panicked-"
-		if strings.Contains(crash, "deadlock") {
+		if strings.Contains(crash, "deadlock") || strings.Contains(crash, "did not end") {
 			sig = "series-call-never-returns-"
 		}
-		return []verdict{{sig + "on-" + kindStr + "-failure-" + retr, allFailed + "; " + crash}}
+		return []verdict{{pre + sig + "on-" + kindStr + "-failure-" + retr, allFailed + "; " + crash}}
 	}
 	if c.Abort || c.Disabled {
 		if err == nil {
@@ -294,13 +416,13 @@ func judge(c Case, srv *collectServer, err error, crash string, showKind bool) (
 			if !c.Abort {
 				what = "legacy-disabled"
 			}
-			out = append(out, verdict{fmt.Sprintf("%s-request-succeeded-despite-%s-failure-%s", what, kindStr, retr),
-				fmt.Sprintf("%s but Series returned nil (warnings sent: %v, %d series)", allFailed, srv.warnings, len(srv.series))})
+			out = append(out, verdict{fmt.Sprintf("%s%s-request-succeeded-despite-%s-failure-%s", pre, what, kindStr, retr),
+				fmt.Sprintf("%s but %s returned no error (warnings: %v, %d series)", allFailed, call, srv.warnings, srv.nseries)})
 		}
 		return out
 	}
 	if err != nil {
-		return []verdict{{fmt.Sprintf("warn-request-failed-on-%s-failure-%s", kindStr, retr), fmt.Sprintf("%s and Series returned %v", allFailed, err)}}
+		return []verdict{{fmt.Sprintf("%swarn-request-failed-on-%s-failure-%s", pre, kindStr, retr), fmt.Sprintf("%s and %s returned %v", allFailed, call, err)}}
 	}
 	for _, i := range failed {
 		name := fmt.Sprintf("store-%d", i)
@@ -311,30 +433,30 @@ func judge(c Case, srv *collectServer, err error, crash string, showKind bool) (
 			}
 		}
 		if !found {
-			out = append(out, verdict{fmt.Sprintf("warn-no-warning-for-store-with-%s-failure-%s", faultName(c.Stores[i], showKind), retr),
-				fmt.Sprintf("%s but no warning names it; warnings: %v", describe(i), srv.warnings)})
-		}
-	}
-	got := map[string]map[string]bool{}
-	for _, s := range srv.series {
-		k := labelpb.ZLabelsToPromLabels(s.Labels).String()
-		if got[k] == nil {
-			got[k] = map[string]bool{}
-		}
-		for _, ch := range s.Chunks {
-			got[k][chunkIdentity(ch)] = true
+			out = append(out, verdict{fmt.Sprintf("%swarn-no-warning-for-store-with-%s-failure-%s", pre, faultName(c.Stores[i], showKind), retr),
+				fmt.Sprintf("%s%s but no warning names it; warnings: %v; %d series returned", where, describe(i), srv.warnings, srv.nseries)})
 		}
 	}
 	for _, i := range healthy {
 		for _, e := range c.Stores[i].E {
-			k := lset(e.L, e.R).String()
-			if got[k] == nil {
-				out = append(out, verdict{"warn-series-of-healthy-store-missing-" + retr, fmt.Sprintf("store-%d did not fail but its series %s is not in the response (%s)", i, k, allFailed)})
+			// with deduplication on the series is returned without its replica label
+			want := lset(e.L, e.R)
+			if c.Dedup {
+				want = lset(e.L, 0)
+			}
+			k := want.String()
+			if srv.got[k] == nil {
+				out = append(out, verdict{pre + "warn-series-of-healthy-store-missing-" + retr, fmt.Sprintf("store-%d did not fail but its series %s is not in the response (%s)", i, k, allFailed)})
+				continue
+			}
+			if !srv.data {
 				continue
 			}
 			for _, id := range e.C {
-				if !got[k][chunkIdentity(mkChunk(id))] {
-					out = append(out, verdict{"warn-chunk-of-healthy-store-missing-" + retr, fmt.Sprintf("store-%d did not fail but chunk %d of its series %s is not in the response (%s)", i, id, k, allFailed)})
+				for _, w := range wantIDs(c.Via, id) {
+					if !srv.got[k][w] {
+						out = append(out, verdict{pre + "warn-" + unit + "-of-healthy-store-missing-" + retr, fmt.Sprintf("store-%d did not fail but %s %s (chunk %d) of its series %s is not in the response (%s)", i, unit, w, id, k, allFailed)})
+					}
 				}
 			}
 		}
@@ -342,27 +464,40 @@ func judge(c Case, srv *collectServer, err error, crash string, showKind bool) (
 	return out
 }
 
-// runInBubble runs the request inside a fresh synctest bubble. crash is non-empty when Series panicked on the
+// runInBubble runs the request inside a fresh synctest bubble. crash is non-empty when the call panicked on the
 // calling goroutine or when synctest found the bubble deadlocked (all goroutines durably blocked, no timer
 // pending), which it reports by panicking in the goroutine that called synctest.Test.
-func runInBubble(t *testing.T, c Case) (srv *collectServer, err error, crash string) {
+func runInBubble(t *testing.T, c Case) (res result) {
 	defer func() {
 		if p := recover(); p != nil {
-			crash = fmt.Sprintf("synctest: %v", p)
+			if s := fmt.Sprint(p); strings.Contains(s, "HARNESS-ERROR") {
+				panic(p)
+			}
+			res.crash = fmt.Sprintf("synctest: %v", p)
 		}
 	}()
 	synctest.Test(t, func(t *testing.T) {
 		defer func() {
 			if p := recover(); p != nil {
-				crash = fmt.Sprintf("panic in Series: %v", p)
+				if s, ok := p.(string); ok && strings.HasPrefix(s, "HARNESS-ERROR") {
+					panic(p)
+				}
+				res.crash = fmt.Sprintf("panic in the call: %v", p)
 			}
 		}()
-		srv, err = runProxy(c)
+		switch c.Via {
+		case "":
+			res.o, res.err = runProxy(c)
+		case "querier":
+			res.o, res.err = runQuerier(c)
+		default:
+			panic("HARNESS-ERROR unknown via " + c.Via)
+		}
 	})
-	if srv == nil && crash == "" {
-		crash = "synctest bubble ended without a result"
+	if res.o == nil && res.crash == "" {
+		res.crash = "synctest bubble ended without a result"
 	}
-	return srv, err, crash
+	return res
 }
 
 func TestCheck(t *testing.T) {
@@ -370,12 +505,14 @@ func TestCheck(t *testing.T) {
 	defer r.Finish()
 	r.Rule("fault assignments = product over stores of (stream shape x {healthy, open error, Recv error at every k in 0..#frames, hang at every k in 0..#frames (timeout runs only)}) with >= 1 failing store " +
 		"(sizes in coverage.block_*); in the *_errkinds blocks (1..2 stores) every failing store additionally ranges over the error KIND it fails with: open/recv x {plain, gRPC status Canceled, DeadlineExceeded, Unavailable, Aborted, bare context.Canceled, bare context.DeadlineExceeded, io.ErrUnexpectedEOF}, hang x {bare context error, gRPC status made of it}; each x {WARN, ABORT, legacy PartialResponseDisabled bit alone (= abort)} x {eager, lazy buf 1..2(3)} x batch {0,2(,3)} x response timeout {none, 1s}; " +
-		"non-trivial = distinct fault assignment+configuration in which a healthy store with data coexists with a failing store, or a store fails after having delivered >= 1 frame")
+		"querier_block_*: the same fault assignments (1..3 stores, including every assignment whose merged response has zero series) through the real querier's Select over the real ProxyStore x partial response {on = WARN, off = ABORT} x {no replica labels, replica label r=i+1 on store i without dedup, with dedup, with dedup over stores that cannot strip replica labels} x {eager, lazy buf 1(..2)} x batch {0,2} x response timeout {none, 1s}, judged on the series set Select returns (Err(), Warnings(), series; samples when dedup is off); " +
+		"non-trivial = distinct fault assignment+configuration in which a healthy store with data coexists with a failing store, or a store fails after having delivered >= 1 frame, or (querier) a store failed and the result has zero series")
 	r.Assume("every run happens inside a testing/synctest bubble: the 1s frame timeout elapses on the virtual clock exactly when all goroutines are durably blocked, so a hanging Recv is cancelled deterministically",
 		"a hanging store returns the context error once the proxy cancels the call: the bare ctx.Err() (in-process client) or, kind grpc, status.FromContextError(ctx.Err()) = code Canceled, which is what a real gRPC client stream returns",
 		"every error value of the kind alphabet is a non-nil error other than io.EOF, hence a failure of the stream (grpc.ClientStream.RecvMsg: io.EOF on success, 'on any other error the stream is aborted'); no wrapped io.EOF is injected",
 		"a request with the deprecated PartialResponseDisabled bit and no strategy is an abort request (rpc.proto: 'Deprecated. Use partial_response_strategy instead'); it gets its own violation signature; the bit combined with an explicit ABORT adds nothing and is not enumerated",
-		"goroutine interleavings are whatever the Go scheduler picks (the E1 part of C06 explores them); the oracle does not depend on them")
+		"goroutine interleavings are whatever the Go scheduler picks (the E1 part of C06 explores them); the oracle does not depend on them",
+		"querier runs: the series set is consumed the way the PromQL engine does (Next until false, then Err and Warnings); a fake store that supports without_replica_labels removes the replica label itself when asked; with dedup on only the presence of the healthy stores' series (without replica label) is required, not their samples (which samples survive the penalty deduplication is C01's subject)")
 
 	vlib.ForEach(r, gen(r), func(c Case) {
 		r.Sample(c)
@@ -395,11 +532,7 @@ func TestCheck(t *testing.T) {
 			}
 		}
 		if len(failed) == 0 {
-			t.Fatalf("HARNESS-ERROR case without a failing store")
-		}
-		if healthyData || midstream {
-			b, _ := json.Marshal(c)
-			r.Nontrivial(string(b))
+			panic("HARNESS-ERROR case without a failing store")
 		}
 		kinded := false
 		for _, i := range failed {
@@ -409,42 +542,69 @@ func TestCheck(t *testing.T) {
 			}
 		}
 
-		srv, err, crash := runInBubble(t, c)
-		if crash == "" {
-			for _, w := range srv.warnings {
+		res := runInBubble(t, c)
+		zeroSeries := false
+		if res.crash == "" {
+			pre := ""
+			if c.Via != "" {
+				pre = c.Via + "_"
+				if res.err == nil && res.o.nseries == 0 {
+					zeroSeries = true
+					r.Add(pre+"warn_runs_with_zero_series_result", 1)
+				}
+			}
+			for _, w := range res.o.warnings {
 				if strings.Contains(w, "failed to receive any data in 1s") {
-					r.Add("runs_with_frame_timeout_warning", 1)
+					r.Add(pre+"runs_with_frame_timeout_warning", 1)
 					break
 				}
 			}
 			switch {
-			case (c.Abort || c.Disabled) && err != nil:
-				r.Add("abort_runs_failed_as_required", 1)
-				if strings.Contains(err.Error(), "failed to receive any data in 1s") {
-					r.Add("abort_runs_failed_by_frame_timeout", 1)
+			case (c.Abort || c.Disabled) && res.err != nil:
+				r.Add(pre+"abort_runs_failed_as_required", 1)
+				if strings.Contains(res.err.Error(), "failed to receive any data in 1s") {
+					r.Add(pre+"abort_runs_failed_by_frame_timeout", 1)
 				}
-			case !(c.Abort || c.Disabled) && err == nil:
-				r.Add("warn_runs_succeeded_as_required", 1)
+			case !(c.Abort || c.Disabled) && res.err == nil:
+				r.Add(pre+"warn_runs_succeeded_as_required", 1)
 			}
 		}
-		vs := judge(c, srv, err, crash, true)
+		if healthyData || midstream || zeroSeries {
+			b, _ := json.Marshal(c)
+			r.Nontrivial(string(b))
+		}
+		// ec: the case the violation class is named after (see below); the counter-example is always c itself
+		ec, eres := c, res
+		vs := judge(ec, eres, true)
+		note := ""
+		if len(vs) > 0 && c.Via != "" {
+			// Is the querier involved at all? Re-run the same case against ProxyStore.Series directly. If that violates
+			// too, the counter-example is filed under the proxy's signature (the class the proxy family reports);
+			// otherwise the class is one of the querier ("querier-..."). This only names the class.
+			pc := c
+			pc.Via = ""
+			pres := runInBubble(t, pc)
+			if pvs := judge(pc, pres, true); len(pvs) > 0 {
+				ec, eres, vs = pc, pres, pvs
+				note = "seen through the querier's Select and through ProxyStore.Series alone; "
+			}
+		}
 		if len(vs) > 0 && kinded {
 			// Does the error KIND matter? Re-run the same case with every failing store failing with the plain
 			// error instead. If that violates too, the kind is irrelevant and the counter-example is filed under
 			// the signature without kinds (the class the plain blocks report); otherwise the kinds are part of the
 			// class. This only names the class; the verdict is the one of the case itself.
-			plain := c
-			plain.Stores = append([]StoreSpec(nil), c.Stores...)
+			plain := ec
+			plain.Stores = append([]StoreSpec(nil), ec.Stores...)
 			for i := range plain.Stores {
 				plain.Stores[i].Kind = ""
 			}
-			psrv, perr, pcrash := runInBubble(t, plain)
-			if len(judge(plain, psrv, perr, pcrash, false)) > 0 {
-				vs = judge(c, srv, err, crash, false)
+			if len(judge(plain, runInBubble(t, plain), false)) > 0 {
+				vs = judge(ec, eres, false)
 			}
 		}
 		for _, v := range vs {
-			r.Violation(v.sig, v.desc, c)
+			r.Violation(v.sig, note+v.desc, c)
 		}
 	})
 }
